@@ -26,7 +26,7 @@ from ..mir import fmt, walk
 from ..spec import curve
 
 EXPLANATION = __doc__
-TECHNIQUE = "interval abstract interpretation over ssa terms with exact carry/remainder relations and trace partitioning on carries (inductive limb-bound invariants, overflow-assert discharge); limb-polynomial congruence modulo L; bit provenance; canonical dataflow expressions of resolved calls (wiring), dominance ordering of buffer writes vs. hashing, known-bits of the clamp, evaluated constants vs. oracle"
+TECHNIQUE = "interval abstract interpretation over ssa terms with exact carry/remainder relations and trace partitioning on carries (inductive limb-bound invariants, overflow-assert discharge); limb-polynomial congruence modulo L; bit provenance; canonical dataflow expressions of resolved calls (wiring), dominance ordering of buffer writes vs. hashing, known-bits of the clamp, evaluated constants vs. oracle; level (type-state) dataflow over every fe32 operation call site of the crate against the proved 3xTIGHT operand contract, who-may-access rule for Fe limbs"
 
 H = "Context512::finalize(Context512::update(Context512::update(Sha512::new(),%s),%s))"
 H1 = "Context512::finalize(Context512::update(Sha512::new(),%s))"
